@@ -12,25 +12,32 @@ import (
 
 // Vocab gives the lexical values used per leaf type.
 var Vocab = map[string][]string{
-	"string":  {"u", "v", "w w"},
-	"int32":   {"1", "7", "-5"},
-	"int8":    {"-128", "0", "127"},
-	"int16":   {"-32768", "9", "32767"},
-	"int64":   {"-9223372036854775808", "5", "9223372036854775807"},
-	"uint8":   {"0", "200", "255"},
-	"uint16":  {"0", "40000", "65535"},
-	"uint32":  {"0", "3000000000", "4294967295"},
-	"uint64":  {"0", "9", "18446744073709551615"},
-	"boolean": {"true", "false"},
+	"string":    {"u", "v", "w w"},
+	"int32":     {"1", "7", "-5"},
+	"int8":      {"-128", "0", "127"},
+	"int16":     {"-32768", "9", "32767"},
+	"int64":     {"-9223372036854775808", "5", "9223372036854775807"},
+	"uint8":     {"0", "200", "255"},
+	"uint16":    {"0", "40000", "65535"},
+	"uint32":    {"0", "3000000000", "4294967295"},
+	"uint64":    {"0", "9", "18446744073709551615"},
+	"boolean":   {"true", "false"},
+	"decimal64": {"1.5", "-0.25", "100"},
+	"binary":    {"AQID", "aGk=", "/w=="},
+	"empty":     {""},
+	"union":     {"5", "text", "-12"},
+	"leafref":   {"u", "v"},
 }
 
 var KeyVocab = map[string][]string{
-	"string": {"k1", "k2", "k3", "k4"},
-	"int32":  {"1", "2", "3", "10"},
-	"int64":  {"1", "2", "3", "10"},
-	"uint8":  {"1", "2", "200", "255"},
-	"uint64": {"1", "2", "3", "18446744073709551615"},
-	"int8":   {"-128", "-1", "1", "127"},
+	"string":  {"k1", "k2", "k3", "k4"},
+	"int32":   {"1", "2", "3", "10"},
+	"int64":   {"1", "2", "3", "10"},
+	"uint8":   {"1", "2", "200", "255"},
+	"uint64":  {"1", "2", "3", "18446744073709551615"},
+	"int8":    {"-128", "-1", "1", "127"},
+	"uint16":  {"1", "2", "65535", "300"},
+	"boolean": {"true", "false"},
 }
 
 type Params struct {
@@ -47,7 +54,33 @@ type G struct {
 	P  Params
 }
 
+// Hints: conforming values for leaves whose type is restricted (by schema path).
+var Hints = map[string][]string{
+	"v/pc": {"0", "50", "100"},
+	"v/sm": {"10", "15", "20"},
+}
+
 func (g *G) value(n *abs.SNode) string {
+	if h, ok := Hints[strings.Join(n.SP, "/")]; ok {
+		return h[g.R.Intn(len(h))]
+	}
+	switch n.Type {
+	case "enumeration":
+		return n.Enums[g.R.Intn(len(n.Enums))].L
+	case "bits":
+		var ls []string
+		for _, e := range n.Enums {
+			if g.R.Intn(2) == 0 {
+				ls = append(ls, e.L)
+			}
+		}
+		if len(ls) == 0 {
+			ls = []string{n.Enums[0].L}
+		}
+		return strings.Join(ls, " ")
+	case "identityref":
+		return n.Bases[g.R.Intn(len(n.Bases))]
+	}
 	v := Vocab[n.Type]
 	if len(v) == 0 {
 		v = Vocab["string"]
@@ -164,7 +197,12 @@ func (g *G) node(t *abs.Tree, at abs.Path, n *abs.SNode, depth int) {
 func (g *G) keyTuple(n *abs.SNode) []string {
 	var key []string
 	for _, kn := range n.Keys {
-		kt := g.DS.Node(append(append([]string{}, n.SP...), kn)).Type
+		knode := g.DS.Node(append(append([]string{}, n.SP...), kn))
+		kt := knode.Type
+		if kt == "enumeration" {
+			key = append(key, knode.Enums[g.R.Intn(len(knode.Enums))].L)
+			continue
+		}
 		kv := KeyVocab[kt]
 		if len(kv) == 0 {
 			kv = KeyVocab["string"]
